@@ -1,5 +1,7 @@
 (* Witnesses against the full C08 statements: accepted tag sets / field lists whose emitted text is rejected
-   by, or denotes something else for, the system's own parsers. *)
+   by, or denotes something else for, the system's own parsers.  For the code: a tag value with an unbalanced inner
+   double quote (pinned by TestTagLine) and a first tag name with a leading '{'.  For the earlier printers (variant
+   false of line / AsKVString, which quoted only on '=' ',' and the empty tag value): the classes the repair removed. *)
 From LR Require Import lib.Base model.KV model.Tags model.Fields proofs.KVP proofs.TagsP proofs.FieldsP.
 
 Section Wit.
@@ -28,9 +30,9 @@ Section Wit.
       destruct k; [congruence|reflexivity].
   Qed.
 
-  (* every pair "quoted name" = "quoted value" (short strings) is accepted by the field parser *)
-  Lemma fld_accept_single k v : k <> [] -> length k <= 60 -> length v <= 60 ->
-    fields_of_kv unquote (quote k ++ EQ :: quote v) = Ok (enc_fields [k; v]).
+  (* every pair "quoted name" = "quoted value" (short strings) is accepted by the field parser (either variant) *)
+  Lemma fld_accept_single fxl k v : k <> [] -> length k <= 60 -> length v <= 60 ->
+    fields_of_kv_v fxl unquote (quote k ++ EQ :: quote v) = Ok (enc_fields [k; v]).
   Proof.
     intros Hk Lk Lv.
     destruct (quote_facts quote unquote QS v) as (F & L & Hl & N & U & _ & B).
@@ -43,19 +45,61 @@ Section Wit.
     - exact (first_is_excl QUOTE LBR _ ltac:(discriminate) Fk).
     - cbn [snd]. rewrite last_is_cons by exact Qv. unfold last_is in *. exact (first_is_excl QUOTE SP _ ltac:(discriminate) L).
     - cbn [snd]. rewrite last_is_cons by exact Qv. unfold last_is in *. exact (first_is_excl QUOTE RBR _ ltac:(discriminate) L).
-    - cbn [join_pairs] in *. unfold fields_of_kv. rewrite Hrc.
+    - cbn [join_pairs] in *. unfold fields_of_kv_v. rewrite Hrc.
       destruct (quote k ++ EQ :: quote v) as [|c0 r0] eqn:Ej; [congruence|]. rewrite Hsp.
-      cbn [flat length Nat.odd Nat.even negb fld_items].
+      cbn [flat length Nat.odd Nat.even negb fld_items_v].
       destruct (Nat.ltb_spec 255 (length (quote k))) as [Hlt|_]; [lia|].
       destruct (Nat.ltb_spec 255 (length (quote v))) as [Hlt|_]; [lia|].
+      rewrite !andb_false_r.
       rewrite !(quote_trimmed quote unquote QS), !(quote_unq quote unquote QS).
+      destruct (Nat.ltb_spec 255 (length k)) as [Hlt|_]; [lia|].
+      destruct (Nat.ltb_spec 255 (length v)) as [Hlt|_]; [lia|].
+      rewrite !andb_false_r.
       destruct (quote k) eqn:E1; [congruence|]. destruct (quote v) eqn:E2; [congruence|].
       cbn [is_nil andb negb]. unfold enc_fields. cbn [map concat]. rewrite app_nil_r. reflexivity.
+  Qed.
+
+  (* every sorted list of pairs with scanner-safe names, all values written as quoted literals, is accepted *)
+  Definition fq (kv : bytes * bytes) : bytes * bytes := (fst kv, quote (snd kv)).
+  Lemma tag_accept_quoted m : keys_sorted m = true -> forallb (fun kv => name_ok (fst kv)) m = true ->
+    tag_edges_ok m = true -> to_map unquote (join_pairs (map fq m)) = Ok m.
+  Proof.
+    intros Hs Hn He. rewrite forallb_forall in Hn.
+    destruct m as [|[k1 v1] tl] eqn:Em; [reflexivity|]. rewrite <- Em in *.
+    destruct (exists_last (l := m)) as (m' & [kl vl] & Em2); [rewrite Em; discriminate|].
+    assert (I1 : In (k1, v1) m) by (rewrite Em; left; reflexivity).
+    destruct (name_facts k1 (Hn _ I1)) as (_ & Ht1 & _).
+    rewrite Em in He. cbn [tag_edges_ok] in He. apply negb_true_iff in He.
+    destruct (quote_facts quote unquote QS vl) as (_ & L & Hl & _).
+    assert (Qv : quote vl <> []) by (intros E; rewrite E in Hl; cbn in Hl; lia).
+    destruct (pieces_join (map fq m) k1 (quote v1) (map fq tl) (map fq m') (fq (kl, vl))) as (Hrc & Hsp & Hne).
+    - rewrite Em. reflexivity.
+    - rewrite Em2, map_app. reflexivity.
+    - rewrite Forall_forall. intros kv I. apply in_map_iff in I as (kv0 & <- & I0).
+      destruct (name_facts _ (Hn _ I0)) as (H1 & _ & H3).
+      destruct (quote_facts quote unquote QS (snd kv0)) as (_ & _ & _ & N & _).
+      unfold rpiece_ok, fq. cbn [fst snd]. repeat split; assumption.
+    - apply (trimmed_ends _ Ht1).
+    - exact He.
+    - unfold fq. cbn [snd]. rewrite last_is_cons by exact Qv. unfold last_is in *. exact (first_is_excl QUOTE SP _ ltac:(discriminate) L).
+    - unfold fq. cbn [snd]. rewrite last_is_cons by exact Qv. unfold last_is in *. exact (first_is_excl QUOTE RBR _ ltac:(discriminate) L).
+    - unfold to_map, to_pairs. rewrite Hrc.
+      destruct (join_pairs (map fq m)) as [|c0 r0] eqn:Ej; [congruence|]. rewrite Hsp.
+      rewrite (pairs_of_flat unquote m (map fq m)).
+      + rewrite (map_of_pairs_sorted m (keys_sorted_SS m Hs)). reflexivity.
+      + clear -Hn QS. induction m as [|kv m IH]; [constructor|]. cbn [map]. constructor.
+        * destruct (name_facts _ (Hn kv (or_introl eq_refl))) as (H1 & H2 & _).
+          unfold rendered, render_ok, fq. cbn [fst snd]. rewrite (quote_trimmed quote unquote QS), (quote_unq quote unquote QS).
+          repeat split; try assumption. apply trim_id. exact H2.
+        * apply IH. intros x Hx. apply Hn. right. exact Hx.
   Qed.
 
   Definition A : bytes := [x61].
   Definition X : bytes := [x78].
 
+  Definition B : bytes := [x62].
+
+  (* ---- the code ---- *)
   (* a value with one inner double quote (the literal TestTagLine pins): the line does not split *)
   Lemma tags_unbalanced_dquote : exists s m, to_map unquote s = Ok m /\ to_map unquote (line quote m) = Err.
   Proof.
@@ -64,22 +108,13 @@ Section Wit.
     - reflexivity.
   Qed.
 
-  (* a value ending in a closing brace: the braces pass rejects the line *)
-  Lemma tags_trailing_brace : exists s m, to_map unquote s = Ok m /\ to_map unquote (line quote m) = Err.
-  Proof.
-    exists (A ++ EQ :: quote [x78; RBR]), [(A, [x78; RBR])]. split.
-    - apply tag_accept_single; reflexivity.
-    - reflexivity.
-  Qed.
-
-  (* a value with a leading blank: the line denotes the value without it *)
-  Lemma tags_edge_blank : exists s m m', to_map unquote s = Ok m /\ to_map unquote (line quote m) = Ok m' /\ m' <> m.
-  Proof.
-    exists (A ++ EQ :: quote [SP; x78]), [(A, [SP; x78])], [(A, X)]. split; [|split].
-    - apply tag_accept_single; reflexivity.
-    - reflexivity.
-    - discriminate.
-  Qed.
+  (* two such values: the line splits again, but into ONE pair -- it denotes another set *)
+  Definition M_XY : kvmap := [(A, [x78; QUOTE; x79]); (B, [x7a; QUOTE; x77])].        (* {a: x"y, b: z"w} *)
+  Definition L_XY : bytes := [x61; EQ; x78; QUOTE; x79; COMMA; x62; EQ; x7a; QUOTE; x77].   (* a=x"y,b=z"w *)
+  Definition V_XY : bytes := [x78; QUOTE; x79; COMMA; x62; EQ; x7a; QUOTE; x77].           (* x"y,b=z"w *)
+  Lemma tags_unbalanced_other_set :
+    to_map unquote (join_pairs (map fq M_XY)) = Ok M_XY /\ line quote M_XY = L_XY /\ to_map unquote L_XY = Ok [(A, V_XY)].
+  Proof. split; [apply tag_accept_quoted; reflexivity|]. split; reflexivity. Qed.
 
   (* a first name with a leading opening brace (accepted from plain text): the braces pass rejects the line *)
   Lemma tags_leading_brace_name : exists s m, to_map unquote s = Ok m /\ to_map unquote (line quote m) = Err.
@@ -87,61 +122,87 @@ Section Wit.
     exists [x7e; EQ; x32; COMMA; LBR; x61; EQ; x31], [([LBR; x61], [x31]); ([x7e], [x32])]. split; reflexivity.
   Qed.
 
+  (* ---- the earlier line() (variant false): what the repair removed ---- *)
+  (* a value ending in a closing brace: the braces pass rejects the line *)
+  Lemma tags_trailing_brace : exists s m, to_map unquote s = Ok m /\ to_map unquote (line_v false quote m) = Err.
+  Proof.
+    exists (A ++ EQ :: quote [x78; RBR]), [(A, [x78; RBR])]. split.
+    - apply tag_accept_single; reflexivity.
+    - reflexivity.
+  Qed.
+
+  (* a value with a leading blank: the line denotes the value without it *)
+  Lemma tags_edge_blank : exists s m m', to_map unquote s = Ok m /\ to_map unquote (line_v false quote m) = Ok m' /\ m' <> m.
+  Proof.
+    exists (A ++ EQ :: quote [SP; x78]), [(A, [SP; x78])], [(A, X)]. split; [|split].
+    - apply tag_accept_single; reflexivity.
+    - reflexivity.
+    - discriminate.
+  Qed.
+
   Hypothesis OF : OracleFacts quote unquote.
 
   (* a value that is itself a double-quoted / back-quoted literal: the line denotes the unquoted value *)
-  Lemma tags_leading_dquote : exists s m m', to_map unquote s = Ok m /\ to_map unquote (line quote m) = Ok m' /\ m' <> m.
+  Lemma tags_leading_dquote : exists s m m', to_map unquote s = Ok m /\ to_map unquote (line_v false quote m) = Ok m' /\ m' <> m.
   Proof.
     destruct OF as (_ & U1 & _).
     exists (A ++ EQ :: quote DQ_X), [(A, DQ_X)], [(A, X)]. split; [|split].
     - apply tag_accept_single; reflexivity.
-    - unfold line, line_ord, to_map, to_pairs. cbn. fold DQ_X. rewrite U1. reflexivity.
+    - unfold line_v, line_ord_v, to_map, to_pairs. cbn. fold DQ_X. rewrite U1. reflexivity.
     - discriminate.
   Qed.
-  Lemma tags_leading_backquote : exists s m m', to_map unquote s = Ok m /\ to_map unquote (line quote m) = Ok m' /\ m' <> m.
+  Lemma tags_leading_backquote : exists s m m', to_map unquote s = Ok m /\ to_map unquote (line_v false quote m) = Ok m' /\ m' <> m.
   Proof.
     destruct OF as (_ & _ & U2).
     exists (A ++ EQ :: quote BQ_X), [(A, BQ_X)], [(A, X)]. split; [|split].
     - apply tag_accept_single; reflexivity.
-    - unfold line, line_ord, to_map, to_pairs. cbn. fold BQ_X. rewrite U2. reflexivity.
+    - unfold line_v, line_ord_v, to_map, to_pairs. cbn. fold BQ_X. rewrite U2. reflexivity.
     - discriminate.
   Qed.
 
   (* the empty value and the value made of two double quotes are printed as the same line: printing is not injective *)
   Lemma tags_collision : exists s1 s2 m1 m2, to_map unquote s1 = Ok m1 /\ to_map unquote s2 = Ok m2 /\ m1 <> m2 /\
-    line quote m1 = line quote m2.
+    line_v false quote m1 = line_v false quote m2.
   Proof.
     destruct OF as (Q0 & _ & _).
     exists (A ++ EQ :: quote []), (A ++ EQ :: quote [QUOTE; QUOTE]), [(A, [])], [(A, [QUOTE; QUOTE])].
     split; [apply tag_accept_single; reflexivity|]. split; [apply tag_accept_single; reflexivity|].
-    split; [discriminate|]. unfold line, line_ord. cbn. unfold tag_val. cbn. rewrite Q0. reflexivity.
+    split; [discriminate|]. unfold line_v, line_ord_v. cbn. unfold tag_val_v. cbn. rewrite Q0. reflexivity.
   Qed.
 
-  (* ---- fields ---- *)
+  (* the code prints the five witnesses above so that they come back *)
+  Lemma tags_repaired_witnesses :
+    Forall (fun m => to_map unquote (line quote m) = Ok m)
+      [[(A, [x78; RBR])]; [(A, [SP; x78])]; [(A, DQ_X)]; [(A, BQ_X)]; [(A, [])]; [(A, [QUOTE; QUOTE])]].
+  Proof.
+    repeat constructor; apply (tags_roundtrip quote unquote QS); reflexivity.
+  Qed.
+
+  (* ---- fields: the earlier AsKVString / NewFieldsFromKVString (variants false) ---- *)
   (* a name holding the key/value separator: the text has one separator too many *)
-  Lemma fields_name_separator : exists s f t, fields_of_kv unquote s = Ok f /\ as_kv quote f = Ok t /\ fields_of_kv unquote t = Err.
+  Lemma fields_name_separator : exists s f t, fields_of_kv_v false unquote s = Ok f /\ as_kv_v false quote f = Ok t /\ fields_of_kv_v false unquote t = Err.
   Proof.
     exists (quote [x61; EQ; x62] ++ EQ :: quote [x31]), (enc_fields [[x61; EQ; x62]; [x31]]), [x61; EQ; x62; EQ; x31].
     split; [apply fld_accept_single; cbn; try lia; discriminate|]. split; reflexivity.
   Qed.
   (* a value with a leading blank comes back without it *)
-  Lemma fields_edge_blank : exists s f t f', fields_of_kv unquote s = Ok f /\ as_kv quote f = Ok t /\ fields_of_kv unquote t = Ok f' /\ f' <> f.
+  Lemma fields_edge_blank : exists s f t f', fields_of_kv_v false unquote s = Ok f /\ as_kv_v false quote f = Ok t /\ fields_of_kv_v false unquote t = Ok f' /\ f' <> f.
   Proof.
     exists (quote A ++ EQ :: quote [SP; x78]), (enc_fields [A; [SP; x78]]), [x61; EQ; SP; x78], (enc_fields [A; X]).
     split; [apply fld_accept_single; cbn; try lia; discriminate|]. split; [reflexivity|]. split; [reflexivity|discriminate].
   Qed.
   (* a value with an unbalanced double quote: the text does not split *)
-  Lemma fields_unbalanced_dquote : exists s f t, fields_of_kv unquote s = Ok f /\ as_kv quote f = Ok t /\ fields_of_kv unquote t = Err.
+  Lemma fields_unbalanced_dquote : exists s f t, fields_of_kv_v false unquote s = Ok f /\ as_kv_v false quote f = Ok t /\ fields_of_kv_v false unquote t = Err.
   Proof.
     exists (quote A ++ EQ :: quote [QUOTE; x78]), (enc_fields [A; [QUOTE; x78]]), [x61; EQ; QUOTE; x78].
     split; [apply fld_accept_single; cbn; try lia; discriminate|]. split; reflexivity.
   Qed.
   (* a name that is itself a quoted literal comes back unquoted *)
-  Lemma fields_quoted_name : exists s f t f', fields_of_kv unquote s = Ok f /\ as_kv quote f = Ok t /\ fields_of_kv unquote t = Ok f' /\ f' <> f.
+  Lemma fields_quoted_name : exists s f t f', fields_of_kv_v false unquote s = Ok f /\ as_kv_v false quote f = Ok t /\ fields_of_kv_v false unquote t = Ok f' /\ f' <> f.
   Proof.
     destruct OF as (_ & U1 & _).
     exists (quote DQ_X ++ EQ :: quote [x31]), (enc_fields [DQ_X; [x31]]), (DQ_X ++ [EQ; x31]), (enc_fields [X; [x31]]).
     split; [apply fld_accept_single; cbn; try lia; discriminate|]. split; [reflexivity|]. split; [|discriminate].
-    unfold fields_of_kv. cbn. fold DQ_X. rewrite U1. reflexivity.
+    unfold fields_of_kv_v. cbn. fold DQ_X. rewrite U1. reflexivity.
   Qed.
 End Wit.
